@@ -14,6 +14,9 @@ CHECKS = {
 CHECKS['C12'] = dict(level='other', ref='4/C12',
    text="Three solver obligations giving the statement by induction over C02's step: real constructor + load() on raw storage with arbitrary contents (z3 asked whether a word outside the image can be non-zero; members still indeterminate are reported); the step run with tracing off and on (trace/traceSyscall executed, formatting stubbed) proved state-, exit- and I/O-equal per path pair; run() past the cycle limit must return a defined value.",
    note="Trusted: irsym, z3/cvc5; formatting callees (boost::format, ostream<<) modelled as side-effect free on simulator state; fstream constructors stubbed; ASLR/environment covered only through 'nothing indeterminate is read'.")
+CHECKS['C16'] = dict(level='other', ref='4/C16',
+   text="verilog/processor.sv, verilog/processor.v and synth/processor.v are verilated separately; the generated eval code is executed symbolically from equal arbitrary registers, arbitrary port inputs and arbitrary previous/new clock and reset levels; z3 proves all registers and outputs equal after settling and after the edge evaluation (sv==v, v==synth/v). Inductive step for all input sequences.",
+   note="Trusted: Verilator 5.006 two-state semantics (X-propagation outside), irsym, z3/cvc5; path conditions of each model are proved to cover the input space before ite-summaries are compared.")
 NA = {}
 ALL = [json.loads(l)['id'] for l in open(os.path.join(V, 'properties.jsonl'))]
 PENDING = "check not built yet in this session (planned in DESIGN.md); not claimed until it exists"
